@@ -55,3 +55,97 @@ fn u18_2_mphd_codec() {
     kani::assume(i < 32);
     assert!(out[i] == buf[i], "every payload byte survives read -> write");
 }
+
+fn le32(b: &[u8], o: usize) -> u32 {
+    u32::from_le_bytes([b[o], b[o + 1], b[o + 2], b[o + 3]])
+}
+fn le16(b: &[u8], o: usize) -> u16 {
+    u16::from_le_bytes([b[o], b[o + 1]])
+}
+
+// MODF: 64 bytes per placement: name id, unique id, position, rotation, lower and upper bounds (3 floats each), flags,
+// doodad set, name set, scale (u16 each) - every field from its published offset, and write(read(b)) == b
+// @harness unit=U18.4 props=C18 kind=bounded bound="2 placements (128 payload bytes); every byte value" timeout=600 target="chunks/mod.rs: ModfChunk::read / write / size" oracle=wdt_roundtrip
+#[kani::proof]
+#[kani::unwind(5)]
+#[kani::stub(alloc::fmt::format, stub_format)]
+fn u18_4_modf_codec() {
+    use crate::chunks::{Chunk, ModfChunk};
+    let buf: [u8; 128] = kani::any();
+    let mut src: &[u8] = &buf[..];
+    let c = match ModfChunk::read(&mut src, 128) {
+        Ok(c) => c,
+        Err(e) => { core::mem::forget(e); assert!(false, "a payload of 2 x 64 bytes is accepted"); return; }
+    };
+    assert!(src.is_empty() && c.entries.len() == 2 && c.size() == 128, "one placement per 64 bytes");
+    let k: usize = kani::any();
+    kani::assume(k < 2);
+    let o = 64 * k;
+    let e = &c.entries[k];
+    assert!(e.id == le32(&buf, o) && e.unique_id == le32(&buf, o + 4), "name id and unique id");
+    let j: usize = kani::any();
+    kani::assume(j < 3);
+    assert!(e.position[j].to_bits() == le32(&buf, o + 8 + 4 * j) && e.rotation[j].to_bits() == le32(&buf, o + 20 + 4 * j), "position, rotation");
+    assert!(e.lower_bounds[j].to_bits() == le32(&buf, o + 32 + 4 * j) && e.upper_bounds[j].to_bits() == le32(&buf, o + 44 + 4 * j), "bounding box");
+    assert!(e.flags == le16(&buf, o + 56) && e.doodad_set == le16(&buf, o + 58) && e.name_set == le16(&buf, o + 60) && e.scale == le16(&buf, o + 62), "flags, doodad set, name set, scale");
+    let mut out = [0xAAu8; 136];
+    let left = {
+        let mut w: &mut [u8] = &mut out[..];
+        match c.write(&mut w) { Ok(()) => {}, Err(e) => { core::mem::forget(e); assert!(false, "write succeeds"); } }
+        w.len()
+    };
+    assert!(left == 8, "write emits 64 bytes per placement");
+    let i: usize = kani::any();
+    kani::assume(i < 128);
+    assert!(out[i] == buf[i], "every payload byte survives read -> write");
+    core::mem::forget(c);
+}
+
+// a MODF payload that is not a whole number of placements is refused, never mis-framed
+// @harness unit=U18.4 props=C18,C05 kind=complete timeout=300 target="chunks/mod.rs: ModfChunk::read size check (every declared size, empty input)" oracle=wdt_roundtrip
+#[kani::proof]
+#[kani::unwind(3)]
+#[kani::stub(alloc::fmt::format, stub_format)]
+fn u18_4_modf_partial_entry_refused() {
+    use crate::chunks::{Chunk, ModfChunk};
+    let size: usize = kani::any();
+    kani::assume(size % 64 != 0);
+    let empty: [u8; 0] = [];
+    let mut src: &[u8] = &empty[..];
+    match ModfChunk::read(&mut src, size) {
+        Ok(c) => { core::mem::forget(c); assert!(false, "a partial placement is an error"); }
+        Err(e) => core::mem::forget(e),
+    }
+}
+
+// chunk framing (Chunk::write_chunk): reversed magic, payload size little-endian, then exactly `size` payload bytes
+// @harness unit=U18.4 props=C18 kind=bounded bound="MVER, MODF with 1 placement, MWMO with names of 2 and 1 bytes; every field value" timeout=600 target="chunks/mod.rs: Chunk::write_chunk (default method) with MverChunk, ModfChunk, MwmoChunk write/size" oracle=wdt_roundtrip
+#[kani::proof]
+#[kani::unwind(6)]
+#[kani::stub(alloc::fmt::format, stub_format)]
+fn u18_4_write_chunk_framing() {
+    use crate::chunks::{Chunk, ModfChunk, ModfEntry, MverChunk, MwmoChunk};
+    // MVER
+    let mut out = [0xAAu8; 16];
+    let n = { let mut w: &mut [u8] = &mut out[..]; assert!(MverChunk::new().write_chunk(&mut w).is_ok()); 16 - w.len() };
+    assert!(n == 12 && &out[0..4] == b"REVM" && le32(&out, 4) == 4 && le32(&out, 8) == 18, "MVER: header, size 4, version 18");
+    // MODF
+    let mut e = ModfEntry::new();
+    e.id = kani::any(); e.unique_id = kani::any(); e.scale = kani::any(); e.flags = kani::any();
+    let mut m = ModfChunk::new();
+    m.add_entry(e);
+    let mut out = [0xAAu8; 80];
+    let n = { let mut w: &mut [u8] = &mut out[..]; assert!(m.write_chunk(&mut w).is_ok()); 80 - w.len() };
+    assert!(n == 72 && &out[0..4] == b"FDOM" && le32(&out, 4) == 64, "MODF: size field = 64 bytes per placement = payload bytes written");
+    assert!(le32(&out, 8) == m.entries[0].id && le16(&out, 70) == m.entries[0].scale && out[72] == 0xAA, "payload follows the header");
+    core::mem::forget(m);
+    // MWMO
+    let mut w_ = MwmoChunk::new();
+    w_.add_filename(String::from("ab"));
+    w_.add_filename(String::from("c"));
+    let mut out = [0xAAu8; 16];
+    let n = { let mut w: &mut [u8] = &mut out[..]; assert!(w_.write_chunk(&mut w).is_ok()); 16 - w.len() };
+    assert!(n == 13 && &out[0..4] == b"OMWM" && le32(&out, 4) == 5, "MWMO: size field = name bytes + one NUL each = payload bytes written");
+    assert!(&out[8..13] == b"ab\0c\0" && out[13] == 0xAA, "names in order, each NUL terminated");
+    core::mem::forget(w_);
+}
